@@ -311,6 +311,38 @@ def one_case(ctx, k, kind):
                     ctx.reached("filter:skip")
                 many = set(view.all(rest).tolist())
                 ctx.check("skip-keep-drop-consistent", many == dropset, mech=f"all-list:{base}", names=rest, selector=sel, **tag)
+            # chains of filters compose as set operations (a filter that removed every name of an entity kind must
+            # stay removed under the next one)
+            if len(allnames) >= 1:
+                a = allnames[0]
+                named = lambda nm: {g_ for g_ in wantset if dofname[g_] == nm}
+                other = allnames[-1]
+                chains = {
+                    "drop-then-keep-same": (lambda vw: vw.drop([a]).keep([a]), set()),
+                    "keep-then-drop-same": (lambda vw: vw.keep([a]).drop([a]), set()),
+                    "keep-then-keep-same": (lambda vw: vw.keep([a]).keep([a]), named(a)),
+                    "drop-then-all-same": (lambda vw: vw.drop([a]), wantset - named(a)),
+                    "drop-then-drop-other": (lambda vw: vw.drop([a]).drop([other]), wantset - named(a) - named(other)),
+                    "keep-then-keep-other": (lambda vw: vw.keep([a]).keep([other]), named(a) if other == a else set()),
+                    "drop-then-keep-other": (lambda vw: vw.drop([a]).keep([other]), set() if other == a else named(other)),
+                }
+                for cname, (fn, wantc) in chains.items():
+                    gotc = set(fn(view).flatten().tolist())
+                    ctx.check("skip-keep-drop-consistent", gotc == wantc, mech=f"filter-chain:{cname}", selector=sel,
+                              names=[a, other], got=lambda: sorted(gotc)[:6], want=lambda: sorted(wantc)[:6], **tag)
+                # skip= at query time followed by a filter, for every selector kind
+                for selname, q, wset in (("facets", lambda **kw: basis.get_dofs(F.astype(np.int32), **kw), want),
+                                         ("elements", lambda **kw: basis.get_dofs(elements=E.astype(np.int32), **kw), wantE),
+                                         ("nodes", lambda **kw: basis.get_dofs(nodes=V.astype(np.int32), **kw), wantV)):
+                    if sel != "facets":
+                        break
+                    nm_of = lambda ws, nm: {g_ for g_ in ws if dofname.get(g_) == nm}
+                    sk = q(skip=[a])
+                    ctx.check("skip-keep-drop-consistent", set(sk.flatten().tolist()) == wset - nm_of(wset, a),
+                              mech=f"skip-ignored:{selname}", selector=selname, name=a, **tag)
+                    ctx.check("skip-keep-drop-consistent", set(sk.keep([a]).flatten().tolist()) == set(),
+                              mech=f"filter-chain:skip-then-keep-same:{selname}", selector=selname, name=a, **tag)
+                    ctx.reached("filter:skip")
             # per-kind dictionaries
             bykind = {"v": view.nodal, "f": view.facet, "e": view.edge, "i": view.interior}
             for ek, dct in bykind.items():
